@@ -2,11 +2,12 @@ SPECIFICATION Spec
 CONSTANTS
   Family = "event2"
   Versions <- VersionsPair
-  TypesC <- TypesThree
+  TypesC <- TypesTwo
   Depth = "core"
   FieldSet = "core"
+  Entries <- EntriesUntrusted
   MaxOps = 2
-  Heavy <- Heavy3
+  Heavy <- Heavy2
   HeavyAfter <- NoOps
   Muts <- NoOps
 INVARIANTS TypeOK NoPanic WellOrdered Emit
